@@ -1,9 +1,10 @@
 (* C20 — mesh compression conserves volume, validity and transferred totals.
    Statements only; proofs are in Proofs*.v. *)
-From Coq Require Import List ZArith Bool Reals.
+From Coq Require Import List ZArith Bool Reals Permutation QArith.
+Set Default Timeout 120.
 Import ListNotations.
 From FV.C20 Require Import Model ModelReindex ModelEdge ProofsCanon ProofsMerge ProofsVol ProofsTransfer
-  ProofsCheck ProofsReindex ProofsExtra ProofsReindexVol ProofsEdge.
+  ProofsCheck ProofsReindex ProofsExtra ProofsReindexVol ProofsEdge ProofsEdgeVol Harness.
 
 (* ---- merge step (merge_polyhedrons on one connected group) -------------
    hypothesis wf_poly: faces have >= 3 pairwise distinct nodes and every
@@ -141,6 +142,75 @@ Example C20_example_remove_edge :
     Some [[4;5;6]; [4;6;7]; [6;5;1;2]; [7;6;2;3]; [4;7;3;0]; [0;3;2;1;5;4]]%Z.
 Proof. vm_compute. repeat split; reflexivity. Qed.
 
+(* ---- remove_one_edge_from_polyhedron: edges, balance and volume --------
+   The directed edges of the result are, as a multiset, those of the input
+   without A-B / B-A; hence edge balance (wf_poly) is preserved and the
+   statements compose over the sequences of removals remove_edges performs. *)
+Theorem C20_remove_one_edge_edges : forall p A B p',
+  closed p -> remove_one_edge p A B = Some p' ->
+  Permutation (pedges p') (filter (fun e => negb (is_ab A B e)) (pedges p)).
+Proof. exact remove_one_edge_edges. Qed.
+
+Theorem C20_remove_one_edge_wf : forall p A B p',
+  wf_poly p -> remove_one_edge p A B = Some p' -> wf_poly p'.
+Proof. exact remove_one_edge_wf. Qed.
+
+(* THE PRECONDITION OF THE VOLUME CLAUSE.  Whenever the function accepts and
+   the faces it fuses (those listing A-B in either direction) lie in one plane
+   (through any point q), the centroid-formula volume of the cell is unchanged,
+   for every node placement otherwise.  Fusing faces across a non-flat edge
+   cannot conserve the volume (C20_example_nonplanar_fusion_changes_volume),
+   which is why the volume clause of the property is asserted exactly for the
+   runs whose cos_thresh admits only coplanar fusions. *)
+Theorem C20_remove_one_edge_volume : forall (pos : Z -> V3 R) (q : V3 R) p A B p',
+  wf_poly p -> remove_one_edge p A B = Some p' ->
+  planar_at pos q (fused_nodes p A B) ->
+  vol ROps pos p' = vol ROps pos p.
+Proof. exact remove_one_edge_volume. Qed.
+
+(* non-vacuity: the unit cube with its top split along 4-6; the two triangles
+   lie in the plane z = 1 *)
+Definition ex_cube_pos (v : Z) : V3 R :=
+  (match v with
+   | 0 => (0, 0, 0) | 1 => (1, 0, 0) | 2 => (1, 1, 0) | 3 => (0, 1, 0)
+   | 4 => (0, 0, 1) | 5 => (1, 0, 1) | 6 => (1, 1, 1) | 7 => (0, 1, 1)
+   | _ => (0, 0, 0)
+   end)%R.
+Example C20_example_remove_edge_volume :
+  let p := [[4;5;6]; [4;6;7]; [5;4;0;1]; [6;5;1;2]; [7;6;2;3]; [4;7;3;0]; [3;2;1;0]]%Z in
+  wf_poly_b p = true /\ fused_nodes p 4 6 = [4;5;6;4;6;7]%Z /\
+  planar_at ex_cube_pos (0, 0, 1)%R (fused_nodes p 4 6) /\
+  vol ROps ex_cube_pos [[5;4;0;1]; [6;5;1;2]; [7;6;2;3]; [4;7;3;0]; [3;2;1;0]; [4;5;6;7]]%Z
+    = vol ROps ex_cube_pos p.
+Proof.
+  intros p.
+  assert (Hpl : planar_at ex_cube_pos (0, 0, 1)%R (fused_nodes p 4 6)).
+  { apply planar_flat. intros v Hv. vm_compute in Hv.
+    repeat (destruct Hv as [<- | Hv]; [reflexivity|]). destruct Hv. }
+  split; [vm_compute; reflexivity|]. split; [vm_compute; reflexivity|]. split; [exact Hpl|].
+  apply (C20_remove_one_edge_volume ex_cube_pos (0, 0, 1)%R p 4 6).
+  - apply C20_wf_poly_b_iff. vm_compute. reflexivity.
+  - vm_compute. reflexivity.
+  - exact Hpl.
+Qed.
+
+(* the planarity hypothesis is needed: lift node 5 of the cube to z = 2; the
+   fused quadrilateral 4-5-6-7 is not planar and the volume (exact rationals)
+   changes from 7/6 to 5/4 *)
+Example C20_example_nonplanar_fusion_changes_volume :
+  let tbl := [(0, 0, 0); (1, 0, 0); (1, 1, 0); (0, 1, 0); (0, 0, 1); (1, 0, 2); (1, 1, 1); (0, 1, 1)]%Q in
+  let p := [[4;5;6]; [4;6;7]; [5;4;0;1]; [6;5;1;2]; [7;6;2;3]; [4;7;3;0]; [3;2;1;0]]%Z in
+  exists p', remove_one_edge p 4 6 = Some p' /\ wf_poly_b p = true /\
+    planar_b tbl (fused_nodes p 4 6) = false /\
+    volQ tbl [p] = (7 # 6)%Q /\ volQ tbl [p'] = (5 # 4)%Q.
+Proof.
+  exists [[5;4;0;1]; [6;5;1;2]; [7;6;2;3]; [4;7;3;0]; [3;2;1;0]; [4;5;6;7]]%Z.
+  vm_compute. repeat split; reflexivity.
+Qed.
+
 Print Assumptions C20_merge_closed.
 Print Assumptions C20_merge_volume.
 Print Assumptions C20_sum_conserves_total.
+Print Assumptions C20_remove_one_edge_edges.
+Print Assumptions C20_remove_one_edge_wf.
+Print Assumptions C20_remove_one_edge_volume.
